@@ -7,6 +7,7 @@ as named obligations. Units run in worker processes and return plain data.
 from __future__ import annotations
 
 import fractions
+import re
 import os
 import subprocess
 import tempfile
@@ -190,7 +191,12 @@ class Unit:
         # Escalating attempts: solver run time on nonlinear queries is erratic (same query 0.04 s or > 20 s
         # depending on term numbering), so a short first try, the goal's cone of influence, another seed, then
         # the full budget. `sat` is only accepted from an attempt that carries the complete path condition.
-        for attempt, (budget, seed) in enumerate(((2500, 0), (None, 0), (8000, 7), (self.timeout_ms, 0))):
+        # an obligation already refuted three times in this unit (other paths / instances) is established as failing: further
+        # instances get one short attempt, so that a broken tree does not cost minutes of solver time
+        base = re.sub(r"\[.*$", "", name)
+        often = getattr(self, "_refuted_count", {}).get(base, 0) >= 3
+        ladder = ((1500, 0),) if often else ((2500, 0), (None, 0), (8000, 7), (self.timeout_ms, 0))
+        for attempt, (budget, seed) in enumerate(ladder):
             if budget is None:
                 if relevant_retry(pc, goal, 6000):
                     verdict, solver = "discharged", "z3 (cone of influence)"
@@ -211,7 +217,7 @@ class Unit:
             if r == z3.sat:
                 verdict, model = "refuted", s.model()
                 small = (info or {}).get("small")
-                if small:      # prefer a counter-model with small dimensions (replayable)
+                if small and not often:      # prefer a counter-model with small dimensions (replayable)
                     for bound in (4, 12):
                         s.push()
                         s.add(*[z3.And(t <= bound, t >= -bound) for t in small if isinstance(t, z3.ExprRef)])
@@ -221,6 +227,11 @@ class Unit:
                             break
                         s.pop()
                 break
+        if verdict is None and often:
+            verdict = "undecided"
+        if verdict == "refuted":
+            self._refuted_count = getattr(self, "_refuted_count", {})
+            self._refuted_count[base] = self._refuted_count.get(base, 0) + 1
         if verdict is None:
             r2 = cvc5_check(s, self.timeout_ms)      # second back end on the SMT-LIB2 export
             if r2 == "unsat":
